@@ -115,6 +115,8 @@ def gen_set_order(tier):
              bounds="two elements, all u8 values; IndexSet as compiled under the all-colliding hasher stub", unwind=18, tier=tier)
     h.attrs = [STUB_RS] + STUB_DH
     h.rec_limit = 2
+    h.tier = "off"
+    h.off_reason = "IndexSet (hashbrown) construction: no verdict in 600 s, also under the all-colliding hasher stub"
     return h
 
 
@@ -133,6 +135,8 @@ def gen_from_vec(tier):
              bounds="3 elements, all u8 values", unwind=18, tier=tier)
     h.attrs = [STUB_RS] + STUB_DH
     h.rec_limit = 1
+    h.tier = "off"
+    h.off_reason = "IndexSet (hashbrown) construction: no verdict in 600 s, also under the all-colliding hasher stub"
     return h
 
 
